@@ -1,6 +1,7 @@
 (** C12 — property theorems only. *)
 From Coq Require Import List NArith Bool.
 From C33 Require Import Lib.Harness Lib.Bytes C12.Model C12.Spec C12.Proofs.
+From C33 Require Import C12.ModelGroup C12.ProofsGroup C12.ProofsGroupState.
 Import ListNotations.
 Open Scope N_scope.
 
@@ -83,3 +84,43 @@ Theorem C12_exec_local_keys_shape :
     /\ forall k, In k ks -> local_shape execer k \/ local_shape (get_real_exec_name execer) k.
 Proof. exact exec_local_tx_shape. Qed.
 Print Assumptions C12_exec_local_keys_shape.
+
+(** transaction groups on the state db (ModelGroup.v) *)
+Theorem C12_group_unreported_write_refused :
+  forall title fork exec_addr registered friend s feekv pre m post,
+    intx s = false ->
+    own_driver_runs title registered m ->
+    unreported_write m ->
+    exec_tx_group title fork exec_addr registered friend s feekv (pre ++ m :: post)
+    = (fee_only s feekv, false, failed_group feekv (pre ++ m :: post)).
+Proof. exact group_unreported_write_refused. Qed.
+Print Assumptions C12_group_unreported_write_refused.
+
+Theorem C12_group_failure_keeps_fee_only :
+  forall title fork exec_addr registered friend s feekv ms s' rs,
+    intx s = false -> ms <> [] ->
+    exec_tx_group title fork exec_addr registered friend s feekv ms = (s', false, rs) ->
+    rs = failed_group feekv ms /\ s' = fee_only s feekv
+    /\ forall k, sdb_get s' k = st_get (st_set (cache s) feekv) k.
+Proof. exact group_failure_state. Qed.
+Print Assumptions C12_group_failure_keeps_fee_only.
+
+Theorem C12_group_success_reported_allowed_state :
+  forall title fork exec_addr registered friend s feekv ms s' rs,
+    intx s = false ->
+    exec_tx_group title fork exec_addr registered friend s feekv ms = (s', true, rs) ->
+    Forall (clean title fork exec_addr registered friend) ms
+    /\ rs = group_receipts title registered feekv ms
+    /\ intx s' = false /\ txcache s' = []
+    /\ (forall k, sdb_get s' k = st_get (st_set (cache s) (concat (map snd rs))) k).
+Proof. exact group_success. Qed.
+Print Assumptions C12_group_success_reported_allowed_state.
+
+Theorem C12_sdb_tx_unreported_write_refused :
+  forall title fork exec_addr registered friend allow_list s feekv m,
+    intx s = false -> own_driver_runs title registered m -> unreported_write m ->
+    exec_tx_sdb title fork exec_addr registered friend allow_list s feekv m
+    = (if is_allow_exec_name allow_list (real_exec_of title registered (m_exec m)) (m_exec m)
+       then (fee_only s feekv, false, (ty_exec_pack, feekv)) else (s, false, (0, []))).
+Proof. exact single_unreported_write_refused. Qed.
+Print Assumptions C12_sdb_tx_unreported_write_refused.
